@@ -650,6 +650,8 @@ class Ctx:
         self.assumptions_used: set[str] = set()
         self.lib_used: set[str] = set()
         self.fuc: dict = {}              # functions under contract touched: key -> info
+        self.uses_strings = False
+        self.string_timeout_ms = 8000
 
     # fresh symbols ---------------------------------------------------------
     def _name(self, base):
@@ -667,6 +669,7 @@ class Ctx:
         return SReal(z3.Real(self._name(base)))
 
     def fresh_str(self, base='s'):
+        self.uses_strings = True
         return SStr(z3.String(self._name(base)))
 
     def fresh_val(self, base='v', sort=VSort):
@@ -687,6 +690,21 @@ class Ctx:
             raise PathAbort()
 
     def feasible(self, extra=None):
+        if self.uses_strings:
+            # the incremental core of z3 is unreliable on sequence constraints: fresh solver, wall-clock bound
+            s = z3.Solver()
+            s.set('timeout', self.string_timeout_ms)
+            for p in self.pc:
+                s.add(p)
+            if extra is not None:
+                s.add(extra)
+            import os
+            if os.environ.get('PYVC_TRACE'):
+                t0 = time.time()
+                r = s.check()
+                print('feasible?', r, round(time.time() - t0, 2), str(extra)[:80].replace('\n', ' '), flush=True)
+                return r != z3.unsat
+            return s.check() != z3.unsat
         self.solver.push()
         try:
             if extra is not None:
